@@ -1,4 +1,38 @@
 import SpowtdModel.Lemmas.LeastSquares
-/- Helper lemmas for Props/C05, C06, C08. -/
+import SpowtdModel.Lemmas.LeastSquaresSums
+import SpowtdModel.Lemmas.LeastSquaresExpand
+import SpowtdModel.Lemmas.LeastSquaresSolve
+import SpowtdModel.Lemmas.LeastSquaresComponents
+/- Helper lemmas for Props/C05, C06, C08: see LeastSquaresSums (list sums, series list),
+   LeastSquaresExpand (expansion of the objective, minimisers), LeastSquaresSolve (solver,
+   single-series levels, planted curves, presentation order, axis shifts, re-origin),
+   LeastSquaresComponents (merge loop). -/
 namespace Spowtd
+namespace LS
+
+/-- `objective_expand` in the form stated in Props/C05 -/
+theorem objective_expand_num (m : Mapping Rat) (x y : Nat → Rat) :
+    objective m y = objective m x
+      + 2 * Num.sum ((seriesOf m).map (fun s => (y s - x s) * residualSum m x s))
+      + objective (m.map (fun hl => (hl.1, hl.2.map (fun st => (st.1, (0 : Rat))))))
+          (fun s => y s - x s) := by
+  rw [objective_zeroed, num_sum]
+  exact objective_expand' m x y
+
+theorem shares_symm (m : Mapping Rat) (s t : Nat) (h : Shares m s t) : Shares m t s := by
+  obtain ⟨hl, hmem, hs, ht⟩ := h
+  exact ⟨hl, hmem, ht, hs⟩
+
+/-- it is enough to link every series to one hub -/
+theorem connected_of_hub (m : Mapping Rat) (r : Nat)
+    (h : ∀ s ∈ seriesOf m, Relation.ReflTransGen (Shares m) r s) : Connected m := by
+  intro s hs t ht
+  have hrev : ∀ a b, Relation.ReflTransGen (Shares m) a b → Relation.ReflTransGen (Shares m) b a := by
+    intro a b hab
+    induction hab with
+    | refl => exact Relation.ReflTransGen.refl
+    | tail _ hbc ih => exact (Relation.ReflTransGen.single (shares_symm m _ _ hbc)).trans ih
+  exact (hrev r s (h s hs)).trans (h t ht)
+
+end LS
 end Spowtd
